@@ -10,7 +10,7 @@ PROP = "C07"
 NEED_JSONSCHEMA = True
 SHARDS = {"quick": 8, "thorough": 16}
 TIME_CAP = {"quick": 70, "thorough": 900}
-REQUIRED = ["validated", "programs", "settings:exclude_defaults", "settings:exclude_none", "settings:both", "settings:none", "declared_key_checks", "required_key_checks",
+REQUIRED = ["conversion_graphs", "conversion_agreement_checks", "validated", "programs", "settings:exclude_defaults", "settings:exclude_none", "settings:both", "settings:none", "declared_key_checks", "required_key_checks",
             "method_in_schema_checks", "init_false_in_schema_checks", "aliaser_programs", "additional_properties_programs", "discriminated_families", "discriminated_serialized_validations"]
 RULE = ("C04 program / value space (classes without unset-tracking, or exclude_unset=False) x the four combinations of the global settings.serialization.exclude_defaults / "
         "exclude_none x aliaser x additional_properties. A case = (type signature, settings, value repr); distinct by hash; non-trivial when the value is an object or container.")
@@ -205,6 +205,8 @@ def check_program(env, prog, label, ndata):
 def run(env):
     from vf import disc
     disc.run_family(env, disc.check_c07, env.n(96, 3000))  # discriminated-union families first (their own budget)
+    from vf import convfam
+    convfam.run_family(env, 'serialize', env.n(480, 12000))  # conversion graphs under every placement (registered / default_conversion / dynamic / field)
     harness.tag_errors(False)
     rng = env.rng
     n = env.n(1400, 30000)
